@@ -4,6 +4,8 @@ package expr
 
 import (
 	dtpb "github.com/google/fhir/go/proto/google/fhir/proto/r4/core/datatypes_go_proto"
+	bcrpb "github.com/google/fhir/go/proto/google/fhir/proto/r4/core/resources/bundle_and_contained_resource_go_proto"
+	ppb "github.com/google/fhir/go/proto/google/fhir/proto/r4/core/resources/patient_go_proto"
 	"github.com/verily-src/fhirpath-go/fhirpath/internal/reflection"
 	"github.com/verily-src/fhirpath-go/fhirpath/system"
 	"github.com/verily-src/fhirpath-go/internal/verifrt"
@@ -14,19 +16,27 @@ var verifAncestors = map[string][]string{
 	"System.Integer": {"System.Integer", "System.Any"}, "System.String": {"System.String", "System.Any"}, "System.Boolean": {"System.Boolean", "System.Any"},
 	"FHIR.string": {"FHIR.string", "FHIR.Element"}, "FHIR.code": {"FHIR.code", "FHIR.string", "FHIR.Element"},
 	"FHIR.positiveInt": {"FHIR.positiveInt", "FHIR.integer", "FHIR.Element"}, "FHIR.canonical": {"FHIR.canonical", "FHIR.uri", "FHIR.Element"},
+	"FHIR.Patient": {"FHIR.Patient", "FHIR.DomainResource", "FHIR.Resource"},
 	"FHIR.HumanName": {"FHIR.HumanName", "FHIR.Element"}, "FHIR.boolean": {"FHIR.boolean", "FHIR.Element"},
 }
 
 var verifIsTargets = [][2]string{{"System", "Integer"}, {"System", "String"}, {"System", "Boolean"}, {"System", "Any"},
 	{"FHIR", "string"}, {"FHIR", "code"}, {"FHIR", "integer"}, {"FHIR", "positiveInt"}, {"FHIR", "uri"}, {"FHIR", "canonical"},
-	{"FHIR", "boolean"}, {"FHIR", "Element"}, {"FHIR", "HumanName"}, {"FHIR", "Resource"}, {"FHIR", "DomainResource"}, {"FHIR", "BackboneElement"}}
+	{"FHIR", "boolean"}, {"FHIR", "Element"}, {"FHIR", "HumanName"}, {"FHIR", "Patient"}, {"FHIR", "Resource"}, {"FHIR", "DomainResource"}, {"FHIR", "BackboneElement"}}
 
 // C12: `x is T` is true exactly when x's declared type is T or derives from T; `x as T` is x itself when
 // `x is T` and empty otherwise; the singleton rule applies.
 func VerifHarness_C12_IsAs() {
 	var x any
 	var decl string
-	switch verifrt.Choose("kind", 9) {
+	var unwrapped any // what `as` yields, when that is not x itself
+	switch verifrt.Choose("kind", 11) {
+	case 9:
+		x, decl = &ppb.Patient{Id: &dtpb.Id{Value: "p"}}, "FHIR.Patient"
+	case 10:
+		// a resource in the wrapper it has as a bundle entry or contained resource is that resource
+		p := &ppb.Patient{Id: &dtpb.Id{Value: "p"}}
+		x, decl, unwrapped = &bcrpb.ContainedResource{OneofResource: &bcrpb.ContainedResource_Patient{Patient: p}}, "FHIR.Patient", p
 	case 0:
 		x, decl = system.Integer(verifrt.NondetInt32("i")), "System.Integer"
 	case 1:
@@ -59,7 +69,11 @@ func VerifHarness_C12_IsAs() {
 	verifrt.Assert(err == nil && verifTV(is) == b2i(want), "is-agrees-with-the-type-hierarchy")
 	as, err2 := (&AsExpression{Expr: verifConst(system.Collection{x}), Type: ts}).Evaluate(ctx, system.Collection{})
 	if want {
-		verifrt.Assert(err2 == nil && len(as) == 1 && as[0] == x, "as-returns-the-value-itself")
+		if unwrapped != nil {
+			verifrt.Assert(err2 == nil && len(as) == 1 && as[0] == unwrapped, "as-returns-the-wrapped-resource")
+		} else {
+			verifrt.Assert(err2 == nil && len(as) == 1 && as[0] == x, "as-returns-the-value-itself")
+		}
 	} else {
 		verifrt.Assert(err2 == nil && len(as) == 0, "as-of-another-type-is-empty")
 	}
